@@ -12,6 +12,7 @@ import (
 	"os"
 	"path/filepath"
 	"strconv"
+	"sync"
 	"testing"
 )
 
@@ -41,7 +42,11 @@ var (
 type assumeFailed struct{}
 type assertFailed struct{ label string }
 
+var valMu sync.Mutex
+
 func val(name string) uint64 {
+	valMu.Lock()
+	defer valMu.Unlock()
 	k := seq[name]
 	seq[name] = k + 1
 	s, ok := rep.Values[name+"#"+strconv.Itoa(k)]
